@@ -67,6 +67,9 @@ def judge_c04(case, lab):
     g2 = _fresh(case, lab)
     gotv = observe.call(lambda: g2.root.validate(copy.deepcopy(o)), lab)
     _cmp_success(res, "validate", gotv, a["validate"])
+    if root_nd["k"] == "opt":
+        _c04_set(res, case, lab, o)
+        _c04_namespace(res, case, lab, o)
     # keys(): only presence is cross-checked here (content is C03 / C09)
     g3 = _fresh(case, lab)
     gotk = observe.call(lambda: set(g3.root.keys(copy.deepcopy(o))), lab)
@@ -75,6 +78,128 @@ def judge_c04(case, lab):
         if absent:
             res.bad("keys-present", "keys() reported absent keys %s" % sorted(absent))
     return res
+
+
+def _leaf_paths(d, pre=()):
+    for k, v in d.items():
+        if isinstance(v, dict):
+            yield from _leaf_paths(v, pre + (k,))
+        else:
+            yield pre + (k,), v
+
+
+def _c04_set(res, case, lab, o):
+    """Option.set with a non-mapping value: the option then evaluates to it, every other key is
+    intact, the input dictionary is unmodified; the result equals the specification's SetPath."""
+    root_nd = case["nodes"][-1]
+    path = root_nd["p"]
+    if any(seg.isdigit() for seg in path):
+        return  # set() addresses mapping keys; list-indexed keys are outside the statement
+    # a prefix of the path holding a non-section value would have to be replaced: ill-sorted
+    cur = o
+    for seg in path[:-1]:
+        if seg in cur and not isinstance(cur[seg], dict):
+            return
+        cur = cur.get(seg, {})
+    if isinstance(cur.get(path[-1]), dict):
+        return
+    plain = lab.Option(".".join(path))
+    for v in (0, "s", None, [1, 2], False):
+        before = copy.deepcopy(o)
+        live = copy.deepcopy(o)
+        try:
+            r = plain.set(live, copy.deepcopy(v))
+        except Exception as e:  # noqa
+            res.bad("set-raises", "Option.set raised %s" % type(e).__name__)
+            return
+        if not strict_eq(live, before):
+            res.bad("set-mutates-input", "Option.set changed its input from %s to %s" % (before, live))
+        got = observe.call(lambda: plain.evaluate(r), lab)
+        if not (got["ok"] and strict_eq(got["v"], v)):
+            res.bad("set-get", "after set(%r) the option evaluates to %s" % (v, observe.describe(got)))
+        mine = tuple(path)
+        for p, val in _leaf_paths(before):
+            if p[:len(mine)] == mine:
+                continue
+            cur, ok = r, True
+            for seg in p:
+                if not isinstance(cur, dict) or seg not in cur:
+                    ok = False
+                    break
+                cur = cur[seg]
+            if not ok or not strict_eq(cur, val):
+                res.bad("set-other-keys", "after set, key %s is %s (was %r)" % (".".join(p), "missing" if not ok else repr(cur), val))
+                break
+        if type(v) is int and v == 0 and not strict_eq(r, dec(case["a"]["set0"])):
+            res.bad("set-vs-spec", "set(0) = %s, the specification's overlay gives %s" % (r, dec(case["a"]["set0"])))
+
+
+def _c04_namespace(res, case, lab, o):
+    """The option declared inside a namespace behaves like the equivalent fully-qualified Option."""
+    nodes = case["nodes"]
+    root_nd = nodes[-1]
+    def templated(v):
+        if isinstance(v, str):
+            return "{" in v
+        if isinstance(v, dict):
+            return any(templated(x) for x in v.values())
+        if isinstance(v, list):
+            return any(templated(x) for x in v)
+        return False
+
+    if templated(o) or any(seg.isdigit() for seg in root_nd["p"]):
+        return  # references inside values are relative to the top of the dictionary, not to NS
+    kw = {}
+    if root_nd["d"]:
+        dn = nodes[root_nd["d"] - 1]
+        if dn["k"] != "val":
+            return
+        kw["default"] = dec(dn["v"])
+    if root_nd["dom"]:
+        dn = nodes[root_nd["dom"] - 1]
+        if dn["k"] != "val":
+            return
+        kw["domain"] = dec(dn["v"])
+    path = root_nd["p"]
+    # class NS: [class S:] LEAF = Option('LEAF', default=..., domain=...)
+    inner = type(path[-1] + "_holder", (), {})
+    ns_dict = {path[-1]: lab.Option(path[-1], **kw)}
+    explicit = (len(canon_nodes(case)) + len(repr(o))) % 2 == 0
+    for depth, seg in enumerate(reversed(path[:-1])):
+        cls = type(seg, (), ns_dict)
+        # innermost section alternately as an implicit sub-namespace (a plain nested class) and as an
+        # explicit namespace object (the _inherit path)
+        ns_dict = {seg: lab.Option.namespace(cls) if (explicit and depth == 0) else cls}
+    try:
+        NS = lab.Option.namespace(type("NS", (), ns_dict))
+        member = NS
+        for seg in path:
+            member = getattr(member, seg)
+    except Exception as e:  # noqa
+        res.bad("namespace-definition", "defining the namespace raised %s: %s" % (type(e).__name__, e))
+        return
+    o2 = {"NS": copy.deepcopy(o)}
+    got = observe.call(lambda: member.evaluate(copy.deepcopy(o2)), lab)
+    exp = case["a"]["eval"]
+    if exp["ok"]:
+        if not (got["ok"] and strict_eq(got["v"], dec(exp["v"]))):
+            res.bad("namespace-member", "namespace member NS.%s gives %s, the equivalent Option %s" % (
+                ".".join(path), observe.describe(got), show(dec(exp["v"]))))
+    else:
+        ef = exp_failure(exp)
+        ef["keys"] = {"NS." + k for k in ef["keys"]}
+        if not observe.same_failure(got, ef):
+            res.bad("namespace-member", "namespace member NS.%s gives %s, the equivalent Option fails with %s" % (
+                ".".join(path), observe.describe(got), exp["cls"]))
+    # evaluating the namespace yields the section built from its members
+    whole = observe.call(lambda: NS.evaluate(copy.deepcopy(o2)), lab)
+    if exp["ok"]:
+        cur = whole["v"] if whole["ok"] else None
+        for seg in path:
+            cur = cur.get(seg) if isinstance(cur, dict) else None
+        if not whole["ok"] or not strict_eq(cur, dec(exp["v"])):
+            res.bad("namespace-evaluate", "NS(options) = %s does not hold %s under %s" % (
+                observe.describe(whole), show(dec(exp["v"])), ".".join(path)))
 
 
 def _has(o, key):
